@@ -92,6 +92,38 @@ def gen_target(ctx, tgt):
             return data
         except Exception:
             pass
+    # another check running at the same time may be generating the same target: wait for its result instead of
+    # computing it twice (the lock only saves work; a stale or failed lock falls through to generating here)
+    lock = path + '.lock'
+    mine = False
+    if not os.environ.get('PYVC_NOCACHE'):
+        try:
+            os.makedirs(cdir, exist_ok=True)
+            fd = os.open(lock, os.O_CREAT | os.O_EXCL | os.O_WRONLY)
+            os.write(fd, str(os.getpid()).encode())
+            os.close(fd)
+            mine = True
+        except FileExistsError:
+            deadline = time.time() + 1500
+            while time.time() < deadline and os.path.exists(lock) and not os.path.exists(path):
+                try:
+                    with open(lock) as f:
+                        owner = int(f.read().strip() or 0)
+                    if owner and not os.path.exists('/proc/%d' % owner):
+                        break       # the generating process is gone
+                except Exception:
+                    pass
+                time.sleep(0.5)
+            if os.path.exists(path):
+                try:
+                    with open(path, 'rb') as f:
+                        data = pickle.load(f)
+                    ctx.cache_hits += 1
+                    return data
+                except Exception:
+                    pass
+        except OSError:
+            pass
     sub = _Col()
     V = Verifier(ctx.repo, ctx.specs, sub)
     V.hooks = list(ctx.V.hooks)
@@ -113,6 +145,11 @@ def gen_target(ctx, tgt):
         os.replace(tmp, path)
     except Exception:
         pass
+    if mine:
+        try:
+            os.unlink(lock)
+        except OSError:
+            pass
     return data
 
 
@@ -318,6 +355,8 @@ def write_evidence(ctx, obs, t0, tgen, tsolve, exit_code, lines, unknown, vanish
         'by_backend': dict(by_backend),
         'by_status': {str(k): v for k, v in by_status.items()},
         'solver_time_s': round(tsolve, 3),
+        'slowest_obligation_s': round(max([o.time or 0 for o in obs] or [0]), 3),
+        'slowest_obligation': (max(obs, key=lambda o: o.time or 0).id if obs else None),
         'generation_time_s': round(tgen, 3),
         'functions_under_contract': funcs,
         'functions_inlined_into_callers': sorted(col.inlined),
